@@ -3,6 +3,7 @@
   what `_flush_lines`, the descriptor write and the tail loop do to the queue.
 -/
 import PdshVerif.Relay.Model
+import PdshVerif.Relay.Growth
 import PdshVerif.Relay.SplitLemmas
 
 namespace PdshVerif.Relay
@@ -80,28 +81,8 @@ theorem flushLines_fifo (cfg : Cfg) (host : Bytes) (strm : Nat) (readRc : Bool) 
   gains 72+meta < 1000 bytes while 1000 are read: lines of 131000..131072 bytes lose data, and
   `growthOk` is false. -/
 
-/-- capacity after the growth step of a descriptor write into a FULL buffer of capacity `s` -/
-def nextSize (mx ch sizeMeta s : Nat) : Nat := (growPolicy s (s + sizeMeta) mx (min s ch)).1
-
-/-- every growth step from capacity `s` on makes room for the read that triggers it
-    (`fuel` bounds the number of steps; running out of fuel counts as failure) -/
-def okFrom (mx ch sizeMeta : Nat) : Nat → Nat → Bool
-  | 0, s => decide (s = mx)
-  | f + 1, s =>
-    if s = mx then true
-    else decide (0 < s) && decide (s < mx) && decide (s + min s ch ≤ nextSize mx ch sizeMeta s) &&
-         decide (nextSize mx ch sizeMeta s ≤ mx) && okFrom mx ch sizeMeta f (nextSize mx ch sizeMeta s)
-
-/-- THE SIDE CONDITION on the constants of the code under test -/
-def growthOk (sizeMeta : Nat) : Bool :=
-  decide (0 < sizeMeta) &&                      -- cbuf.c always allocates one cell more than the capacity
-  decide (0 < Gen.CBUF_CHUNK) && decide (0 < Gen.RELAY_CBUF_MIN) &&
-  decide (Gen.RELAY_CBUF_MIN ≤ Gen.RELAY_CBUF_MAX) &&
-  decide (131072 ≤ Gen.RELAY_CBUF_MAX) &&       -- the buffer's maximum covers the property's 128 KiB lines
-  okFrom Gen.RELAY_CBUF_MAX Gen.CBUF_CHUNK sizeMeta Gen.RELAY_CBUF_MAX Gen.RELAY_CBUF_MIN
-
 theorem growthOk_pos {sizeMeta : Nat} (hg : growthOk sizeMeta = true) : 0 < sizeMeta := by
-  simp only [growthOk, Bool.and_eq_true, decide_eq_true_eq] at hg
+  simp only [growthOk, growthOkFor, Bool.and_eq_true, decide_eq_true_eq] at hg
   exact hg.1.1.1.1.1
 
 theorem okFrom_le (mx ch sizeMeta : Nat) : ∀ (f s : Nat), okFrom mx ch sizeMeta f s = true → s ≤ mx
@@ -127,7 +108,7 @@ structure BufInv (sizeMeta : Nat) (b : PBuf) : Prop where
 
 theorem mkFifoBuf_inv (sizeMeta : Nat) (hg : growthOk sizeMeta = true) (b : PBuf)
     (h : mkFifoBuf sizeMeta = some b) : BufInv sizeMeta b ∧ b.f.q = [] := by
-  simp only [growthOk, Bool.and_eq_true, decide_eq_true_eq] at hg
+  simp only [growthOk, growthOkFor, Bool.and_eq_true, decide_eq_true_eq] at hg
   obtain ⟨⟨⟨⟨⟨_, hc⟩, hmn⟩, hle⟩, hline⟩, hok⟩ := hg
   have hnp : ¬ ((Gen.RELAY_CBUF_MIN : Int) ≤ 0) := by omega
   simp only [mkFifoBuf, Cbuf.Spec.create, hnp, ↓reduceIte, Option.map_some, Option.some.injEq] at h
